@@ -686,6 +686,20 @@ def lua_timed_stage(ck, n):
                "emit('top-after', runtime.context().status, runtime.context().kill.millis or 0)\n"
                "work(20000) emit('top-end', runtime.context().status)" % (pre, kind, 500 + K2 + 1))
         cases.append((src, {"family": "prompt", "parent_work": pre, "inner_millis": K2}))
+    # conservation through time-limit kills (C07_time_kill_keeps_cpu / C07_pop_time_kill_keeps_charge): work done in a
+    # pcall inside a time-limited context that dies while absorbing it is still charged to the CPU-limited context above
+    for k in range(max(3, n // 40)):
+        R = ck.rng.choice([3, 5, 8])
+        wk = ck.rng.choice([4000, 6000, 9000])
+        src = ("local function work(n) local s=0 for i=1,n do s=s+i end return s end\n"
+               "emit('top-before', runtime.context().status, runtime.context().kill.millis or 0)\n"
+               "local clock=0 local oc=runtime.callcontext({kill={cpu=100000000}},function() emit('o-start') "
+               "for r=1,%d do runtime.callcontext({kill={millis=50}},function() pcall(function() work(%d) clock=clock+100 setclock(clock) work(%d) end) end) end "
+               "emit('o-end') end)\n"
+               "emit('outer', oc.status, oc.kill.millis or 0) emit('charged', oc.used.cpu or 0)\n"
+               "emit('top-after', runtime.context().status, runtime.context().kill.millis or 0)\n"
+               "work(20000) emit('top-end', runtime.context().status)" % (R, wk, wk))
+        cases.append((src, {"family": "conserve", "rounds": R, "work": wk}))
     outs = vlib.run_lines_resilient(gvh, ["lua"], ["Z%d %s" % (i, src.encode().hex()) for i, (src, _) in enumerate(cases)], per_case_timeout=30)
     nviol = 0
     stats = {"outer_killed": 0, "outer_done": 0, "inner_killed": 0}
@@ -713,6 +727,11 @@ def lua_timed_stage(ck, n):
                     fails.append("outer context reports %s but its body %s its end" % (ost, "reached" if "o-end" in tags else "did not reach"))
                 if ost not in ("done", "killed"):
                     fails.append("outer context reports %s" % ost)
+                if meta.get("family") == "conserve" and "charged" in tags:
+                    least = meta["rounds"] * meta["work"] * 2      # each loop iteration costs at least 2 ticks; the first half always runs
+                    if tags["charged"][1] < least:
+                        fails.append("work done inside nested time-limited contexts is not charged to the CPU-limited context above: "
+                                     "%d rounds of at least %d ticks each, used.cpu = %d" % (meta["rounds"], meta["work"] * 2, tags["charged"][1]))
                 if "inner-ret" in tags:
                     ist = tags["inner-ret"][1]
                     if ist == "killed":
